@@ -112,7 +112,7 @@ def search(prop, failure, scratch, seed):
 
 def rerun(doc):
     scratch = cl.scratch_dir()
-    if doc.get('replay_kind') in ('eval', 'evalimm', 'tree'):
+    if doc.get('replay_kind') in ('eval', 'evalimm', 'tree', 'typed', 'iter'):
         line = '\t'.join([doc['replay_kind'], hx(doc['expr'])] + (doc.get('binds') or []))
         out = run_lines(scratch, [line])
         print('replay input   :', doc['input'])
